@@ -664,7 +664,10 @@ class Exec:
                     yield q, v
                     continue
                 t = self.truth(q, v)
-                rest_pure = all(self.is_pure(x) for x in e.values[i + 1:])
+                # no calls to the right: attribute reads / subscripts / divisions are tried on a fork and merged
+                # into one boolean when they neither fork nor raise (no side effects are possible without a call)
+                rest_pure = not any(isinstance(n, (ast.Call, ast.NamedExpr, ast.Await, ast.Yield))
+                                    for x in e.values[i + 1:] for n in ast.walk(x))
                 if isinstance(t, bool):
                     if t == is_and:
                         yield from rec(i + 1, q)
@@ -841,8 +844,25 @@ class Exec:
                 if m is not None:
                     yield p, VFunc('method', attr, (base, m))
                     return
-                c = lib.class_const(self, h.cls, attr)
-                if c is not None:
+                shared = p.ghost.get('classattrs', {})
+                if (h.cls, attr) in shared:
+                    yield p, shared[(h.cls, attr)]
+                    return
+                node_c = lib.class_const_node(self, h.cls, attr)
+                if node_c is not None:
+                    # evaluate on this path (so that a mutable default lives in this path's heap) and share it:
+                    # every instance of the class sees the same object, as in Python
+                    p.frames.append(Frame({}, node_c[0], '<class>'))
+                    res = list(self.ev(node_c[1], p))
+                    p.frames.pop()
+                    if len(res) != 1 or isinstance(res[0][1], Raised):
+                        raise EngineError(f'class attribute {attr}')
+                    c = res[0][1]
+                    shared = dict(shared)
+                    shared[(h.cls, attr)] = c
+                    p.ghost['classattrs'] = shared
+                    if isinstance(c, VRef):
+                        p.ghost['shared_refs'] = set(p.ghost.get('shared_refs', ())) | {c.ref}
                     yield p, c
                     return
                 raise EngineError(f'attribute {attr} of instance {h.cls}')
@@ -1023,6 +1043,12 @@ class Exec:
                     q2.heap[cur.ref].items.extend(q2.heap[rhs.ref].items)
                     yield q2, NORMAL
                     continue
+                if isinstance(cur, VRef) and isinstance(s.op, ast.BitOr) and isinstance(rhs, VRef):
+                    from .absseq import HAbsSet, set_union_inplace
+                    if isinstance(q2.heap[cur.ref], HAbsSet):
+                        set_union_inplace(self, q2, cur, rhs)
+                        yield q2, NORMAL
+                        continue
                 if hasattr(cur, 'iop'):
                     yield from cur.iop(self, q2, s.op.__class__.__name__, rhs, s)
                     continue
@@ -1258,7 +1284,7 @@ class Exec:
             if isinstance(it, Raised):
                 yield q, it
                 continue
-            if spec is not None:
+            if spec is not None and not (getattr(spec, 'abstract_only', False) and not hasattr(it, 'listcomp')):
                 yield from seqops.for_with_invariant(self, s, q, it, spec, key)
                 continue
             for q1, items in seqops.iterate(self, q, it, s):
